@@ -128,7 +128,7 @@ EndObs(e) ==
     [] e.op = "max"      -> Obs(cur.src, ConsMax(rest))
 
 Report(why, props, e) ==
-  PrintT(<<"VIOL", ToJson([line |-> l, case |-> meta.case, why |-> why, props |-> props, ev |-> e])>>)
+  PrintT(<<"VIOL", ToJson([line |-> l, case |-> e.case, why |-> why, props |-> props, ev |-> e])>>)
 
 \* metamorphic part: the set of properties violated ({} or {gprop})
 \* (two abnormal results of the same kind are equal whatever their message)
